@@ -67,6 +67,9 @@ def parse_docstring_annotation(
     with suppress(
         AttributeError,  # Docstring has no parent that can be used to resolve names.
         SyntaxError,  # Annotation contains syntax errors.
+        ValueError,  # Annotation cannot be encoded (lone surrogates) or contains null bytes.
+        RecursionError,  # Annotation is too deeply nested for the parser or the expression builder.
+        MemoryError,  # Annotation overflows the parser stack.
     ):
         code = compile(annotation, mode="eval", filename="", flags=PyCF_ONLY_AST, optimize=2)
         if code.body:  # type: ignore[attr-defined]
